@@ -17,6 +17,22 @@ class CompositeBaseToken(BaseToken):
 
     @classmethod
     def get(cls, expression: list, in_cell: Cell):
+        # Packrat memo.  The result depends only on the token class and on the position in the token list;
+        # without it every alternative re-parses its prefix and the work doubles with each nesting level.
+        # All suffixes of one token list end with the same token object, so that object carries the memo
+        # of its parse (and the memo goes away together with the token list).
+        if not expression:
+            return cls._get(expression, in_cell)
+
+        memo = expression[-1].__dict__.setdefault('_composite_memo', {})
+        key = (cls, len(expression))
+        if key not in memo:
+            memo[key] = cls._get(expression, in_cell)
+
+        return memo[key]
+
+    @classmethod
+    def _get(cls, expression: list, in_cell: Cell):
         control_construction_flag = False
         for tokens in cls.get_token_sets():
             new_expression_part = []
